@@ -51,6 +51,29 @@ mod variablescope;
 #[cfg(test)]
 mod testutil;
 
+/// Verification hooks (see /verif): re-exports of crate-private kernels
+/// so that external proof harnesses can call the real code.
+/// Only compiled with `--cfg kaj_rsass_verif`.
+#[cfg(kaj_rsass_verif)]
+#[doc(hidden)]
+pub mod verif_hooks {
+    pub use crate::ordermap::OrderMap;
+    use crate::value::{Color, Hsla, Rgba};
+
+    /// `Color::invert` (crate-private).
+    pub fn color_invert(c: &Color, weight: f64) -> Color {
+        c.invert(weight)
+    }
+    /// `Rgba::invert` (crate-private).
+    pub fn rgba_invert(c: &Rgba, weight: f64) -> Rgba {
+        c.invert(weight)
+    }
+    /// `Hsla::invert` (crate-private).
+    pub fn hsla_invert(c: &Hsla, weight: f64) -> Hsla {
+        c.invert(weight)
+    }
+}
+
 pub use crate::error::{Error, Invalid};
 pub use crate::parser::{ParseError, parse_value_data};
 pub use crate::variablescope::{Scope, ScopeError, ScopeRef};
